@@ -90,6 +90,10 @@ def gen_camera_case(R, integer=False):
         rot = R.choice([rot, -90.0, 450.0, 720.0, R.uniform(-720, 720)])
     theta = R.choice([5.0, 15.0, 30.0, 45.0, 60.0, 90.0, 120.0, 180.0, 200.0, 270.0, R.uniform(1, 179)])
     reach = R.choice([5.0, 10.0, 20.0, R.uniform(1, 30)])
+    if R.random() < 0.12:
+        # legal boundary values: a cone of angle 0 still contains its axis, a reach of 0 still contains the camera's own spot
+        theta = R.choice([0.0, theta])
+        reach = R.choice([0.0, reach, reach])
     n = R.randint(1, 7)
     if integer:
         cam = (float(R.randint(-5, 5)), float(R.randint(-5, 5)), float(R.randint(0, 5)))
